@@ -120,8 +120,18 @@ PROPS = {
     "C08": {
         "modules": ["Resolved.Props.C08"],
         "streams": [{"name": "resolve-faults", "quick": 3000, "thorough": 80000},
+                    # two zones whose (glueless) nameservers live in each other: k = 2..5 under the virtual clock
+                    {"name": "resolve-mutual", "quick": 4, "thorough": 4, "shards": 1, "fixed": True},
+                    # ... and k = 8 under the REAL clock (a CPU-bound search costs no virtual time): the resolution
+                    # must end at the 60 s budget; thorough tier only (one case = 60 s of wall time), release build
+                    {"name": "resolve-mutual-real", "quick": 1, "thorough": 1, "shards": 1, "fixed": True,
+                     "tiers": ["thorough"], "release": True, "timeout_thorough": 400},
+                    # the real binary in forwarding mode against a mock forwarder on real sockets: replies cut
+                    # short (UDP datagram ending inside a record, TCP stream dying after one octet) supply nothing
+                    {"name": "server-fwd", "quick": 300, "thorough": 6000, "shards": 2},
                     {"name": "resolve-universe", "quick": 600, "thorough": 40000},
                     {"name": "upstream", "quick": 8000, "thorough": 200000}],
+        "bins": ["resolved"],
         "trivial_tags": [r":bad-op", r"/x0$"],
         "assumptions": ["tokio's timeout/sleep on the paused clock stand for the real timers; that a future is cancelled at an await point is tokio's contract"],
     },
@@ -137,7 +147,7 @@ PROPS = {
         "assumptions": ["addresses are observed at the mock transport, which replaces the socket layer; in the server-fwd stream at real UDP sockets on 127.0.0.1"],
     },
     "C09": {
-        "modules": ["Resolved.Props.C09"],
+        "modules": ["Resolved.Props.C09", "Resolved.Props.C09Owners"],
         "bins": ["resolved"],
         "streams": [{"name": "server", "quick": 1600, "thorough": 30000, "shards": 4}],
         "trivial_tags": [r":bad-op", r":alive"],
